@@ -59,7 +59,7 @@ def cbmat(rows):
 
 
 HEADER = ('From Coq Require Import List ZArith Bool QArith String.\nImport ListNotations.\n'
-          'From FV.C20 Require Import Model ModelEdge Harness.\nOpen Scope Z_scope.\n'
+          'From FV.C20 Require Import Model ModelEdge ModelDriver Harness HarnessDriver.\nOpen Scope Z_scope.\n'
           'Set Printing Width 100000.\nSet Printing Depth 100000.\n')
 
 
@@ -513,7 +513,8 @@ def gen_run_jobs(ctx, n):
                      'elem_ids': elem_ids, 'crease': crease, 'interleave': bool(p.get('interleave')),
                      'elem_num': elem_num, 'cos_thresh': cos_t, 'dist_thresh': dist_t,
                      'knns': knns, 'transfers': transfers, 'second': second,
-                     'geo_edges': {'seed': rng.randrange(2 ** 30), 'cells': 3 if thorough else 2, 'steps': 6}})
+                     'geo_edges': {'seed': rng.randrange(2 ** 30), 'cells': 3 if thorough else 2, 'steps': 6},
+                     'driver_pass': bool(thorough or i % 2 == 0)})
     return jobs
 
 
@@ -799,6 +800,15 @@ def eval_runs(ctx, rjobs, rres):
         block = L + [f'Goal True. idtac "@@ {nm}". Abort.',
                      'Eval vm_compute in map fst (filter (fun c => negb (snd c)) ' +
                      lib.coq_list([f'({cz(i)}, {e})' for i, (_, e) in enumerate(checks)]) + ').']
+        if 'drv_polys' in r:
+            # one pass of remove_edges vs the driver model (exact angle test + all-cells rule),
+            # and whether every fusion of the model's trace was coplanar
+            thrq = lib.coq_Q(Fr(job['cos_thresh']))
+            block += [f'Definition {nm}_drv : list poly := {cpolys(r["drv_polys"])}.',
+                      f'Goal True. idtac "@@ {nm}_driver". Abort.',
+                      f'Eval vm_compute in (let r := driver_pass {nm}_inpos {thrq} {nm}_mout in '
+                      f'(near_thr_b {nm}_inpos {thrq} {nm}_mout, '
+                      f'polys_eqb (shrink_cells (fst r)) {nm}_drv, snd r)).']
         if r.get('geo_edges'):
             # how many steps were accepted with coplanar fused faces (the non-trivial
             # instances of C20_remove_one_edge_volume)
@@ -866,6 +876,37 @@ def eval_runs(ctx, rjobs, rres):
                  sample={'run': descr, 'cells': [len(r['in_polys']), len(r.get('out_polys', []))],
                          'nodes': [len(r['in_pos']), len(r.get('out_pos', []))], 'regime': regime}
                  if len(summary) < 2 else None)
+        dv = parts.get(nm + '_driver')
+        if dv is not None:
+            import re as _re
+            mm = _re.search(r'\((true|false),\s*(true|false),\s*(true|false)\)', dv)
+            if not mm:
+                ctx.violation('correspondence', {'jobs': {'runs': [strip_x(job)]}}, 'driver model evaluates',
+                              dv[-300:], 'correspondence remove_edges ~ HarnessDriver.driver_pass',
+                              found_input=False, signature={'check': 'driver', 'symptom': 'coq-eval-failed'})
+            else:
+                near, same, planar = [x == 'true' for x in mm.groups()]
+                ctx.corr['cases'] += 1
+                ctx.corr['remove_edges_pass_cases'] = ctx.corr.get('remove_edges_pass_cases', 0) + 1
+                ctx.count('driver_pass:' + ('near-threshold (not compared)' if near else
+                                            'compared, trace ' + ('coplanar' if planar else 'not coplanar')))
+                if not near and not same:
+                    ctx.corr['disagreements'] += 1
+                    ctx.violation('correspondence', {'jobs': {'runs': [strip_x(job)]}},
+                                  'HarnessDriver.driver_pass (exact angle test, all-cells rule, '
+                                  'remove_one_edge per cell, shrink): identical cells',
+                                  'remove_edges returned other cells',
+                                  'correspondence remove_edges ~ HarnessDriver.driver_pass',
+                                  signature={'check': 'driver', 'descr': descr},
+                                  what='one pass of remove_edges on the merged cells disagrees with the model')
+                if regime == 'coplanar-only' and not near and not planar:
+                    ctx.violation('correspondence', {'jobs': {'runs': [strip_x(job)]}},
+                                  'in the coplanar-only domain every fusion of the driver trace is coplanar '
+                                  '(steps_planar of C20_remove_edges_total_volume)',
+                                  'the driver model fused non-coplanar faces',
+                                  'domain of the volume clause vs HarnessDriver.driver_pass',
+                                  signature={'check': 'driver-domain', 'descr': descr},
+                                  what='domain classifier and driver model disagree')
         gp = parts.get(nm + '_geoplanar')
         if gp is not None:
             import re as _re
@@ -1196,7 +1237,7 @@ def main(ctx):
     ctx.assumptions += ['arithmetic modelled as exact (reals); the implementation computes in binary64',
                         'inputs of the whole-run test are bricks with integer/dyadic coordinates so that '
                         'coplanarity and volumes are exact']
-    proof_ok, log = ctx.build_props('C20/Props.v', extra_targets=['C20/Harness.vo'])
+    proof_ok, log = ctx.build_props('C20/Props.v', extra_targets=['C20/Harness.vo', 'C20/HarnessDriver.vo'])
     if not proof_ok:
         ctx.notes['build_log_tail'] = log[-1500:]
     elif ctx.tier == 'thorough' and hasattr(ctx, 'coqchk'):
@@ -1213,7 +1254,7 @@ def main(ctx):
         for j in cj.get('merge', []):
             j = dict(j, id=len(jobs['merge']), kind=j.get('kind', 'corpus'))
             jobs['merge'].append(j)
-    lib_ok = (lib.COQ / 'C20' / 'Harness.vo').exists()
+    lib_ok = (lib.COQ / 'C20' / 'Harness.vo').exists() and (lib.COQ / 'C20' / 'HarnessDriver.vo').exists()
     if lib_ok:
         evaluate(ctx, jobs, 1500 if thorough else 480)
     else:
@@ -1243,7 +1284,7 @@ def replay(path):
         print('nothing to replay on the implementation:', json.dumps(rp, indent=1)[:2000])
         return 1
     ctx = lib.Ctx(PID, 'quick')
-    lib.coq_make(['C20/Harness.vo'])
+    lib.coq_make(['C20/Harness.vo', 'C20/HarnessDriver.vo'])
     jobs = {'merge': jobs.get('merge', []), 'runs': jobs.get('runs', []),
             'reindex': jobs.get('reindex', []), 'edge': jobs.get('edge', [])}
     for k in jobs:
